@@ -7,5 +7,11 @@ t = open('/verif/fv/SEED_PROMPT.txt').read()
 anch = "; ".join(f"{m['name']} ({m.get('where')})" for m in p['anchors']['mechanism'])
 t = (t.replace('{WT}',wt).replace('{OUT}',out).replace('{PID}',pid).replace('{TITLE}',p['title'])
       .replace('{STATEMENT}',p['statement']).replace('{QUANT}',p['quantifier']['text']).replace('{ANCHORS}',anch).replace('{VARIANT}',variant))
+import glob, os
+used = []
+for m in sorted(glob.glob('/verif/seeded/*/meta.json')):
+    mm = json.load(open(m))
+    used.append(f"- {mm.get('files')}: {str(mm.get('summary',''))[:160]}")
+t += "\n\nSites ALREADY USED by earlier seeded changes (for any property) — choose a DIFFERENT function and mechanism:\n" + "\n".join(used) + "\n"
 open(f'/tmp/seedprompt_{pid}_{variant}.txt','w').write(t)
 print(f'/tmp/seedprompt_{pid}_{variant}.txt')
